@@ -115,7 +115,7 @@ UNIT = Unit(
            ensures=[C("noop", "res is Err ==> *final(self) == *old(self)", "C02"),
                     C("ok", "res is Ok ==> batch_result(*old(self), seq![*tx], *final(self))", "C02", "C06", note="a single transaction is the batch of length one")]),
         Fn(S, "apply_block", impl="SealedState", home="C06", implicit_props=("C09", "C06", "C16"),
-           requires=[C("pre", "chain_ok(self.0) && state_inv(self.0) && spec_builtin_pools(self.0) && pools_ok(self.0.pools@) && builtins_if_present(self.0) && self.0.height.0 < u64::MAX && (!spec_tip906(self.0) ==> self.0.coins.only_coins())"),
+           requires=[C("pre", "chain_ok(self.0) && state_inv(self.0) && spec_builtin_pools(self.0) && pools_ok(self.0.pools@) && builtins_if_present(self.0) && self.0.height.0 < u64::MAX"),
                      C("env", "forall|n: UnsealedState<C>, txx: Seq<Transaction>| next_rel(self.0, n) && txx.to_set() == block.transactions@ ==> #[trigger] batch_env(n, txx)",
                        note="C09 envelope: the arithmetic envelopes of batch application hold for the block's transactions"),
                      C("env2", "forall|n: UnsealedState<C>, txx: Seq<Transaction>, mid: UnsealedState<C>| next_rel(self.0, n) && txx.to_set() == block.transactions@ && #[trigger] batch_result(n, txx, mid) ==> seal_env(mid) && reward_fresh(mid) && (spec_tip(mid.network, mid.height, 950000) ==> tip909_env(spec_preseal(mid)))",
